@@ -77,7 +77,8 @@ fn main() {
             let idx: u64 = args.positional.get(1).and_then(|s| s.parse().ok()).unwrap_or(0);
             let seed = verifsim::driver::run_seed(verifsim::driver::batch_seed_from_env(), idx);
             if seam_engine::prop_from_id(id).is_some() {
-                let case = seam_engine::gen_case(seed);
+                let _ = seed;
+                let case = seam_engine::case_of(verifsim::driver::batch_seed_from_env(), idx);
                 println!("{}", case.to_json().to_pretty());
             } else if id == "C04" {
                 let mut d = verifsim::refint::Delegate::new();
